@@ -54,6 +54,15 @@ class P:
             else: reg, use = "REGI:%s:%x:0:0:61" % (hx("hi"), 111), "EXEC:%d:" + hx("1 hi 2 hi 3")
             uses = [use % (i + 1) for i in range(rng.randint(1, 2))]
             items.append(("H:61:rs(%s) PARSE:%s || %s %s" % (hx("h61"), hx("1"), reg, " ".join(uses)), ("reg-race", kind, 2)))
+        # re-registration of an existing name while other threads call it: the replaced handler takes 150 ms to drop
+        # (id >= 900), the calls are issued 40 ms after the registration starts - inside that window
+        for kind, reg9, regn, use in [("F", "REGF:%s:900" % hx("foo"), "REGF:%s:61" % hx("foo"), hx("foo(1)")),
+                                      ("P", "REGP:%s:900" % hx("neg"), "REGP:%s:61" % hx("neg"), hx("neg 1")),
+                                      ("S", "REGS:%s:900" % hx("bang"), "REGS:%s:61" % hx("bang"), hx("1 bang")),
+                                      ("I", "REGI:%s:%x:0:0:900" % (hx("hi"), 111), "REGI:%s:%x:0:0:61" % (hx("hi"), 111), hx("1 hi 2"))]:
+            for rep in range(2 if tier == "quick" else 20):
+                items.append(("H:61:rs(%s) H:900:rs(%s) %s || %s ~40/EXEC:1:%s ~60/EXEC:2:%s" % (hx("h61"), hx("h900"), reg9, regn, use, use),
+                              ("rereg-window", kind, 3)))
         return flow.mk_cases("conc", items)
 
     def run_model(self, lines):
